@@ -1,4 +1,4 @@
-import PoxModel.Proofs.StrictMatch
+import PoxModel.Proofs.MatchCanon
 import PoxModel.Proofs.FlowMod
 set_option linter.unusedSimpArgs false
 /-! Refinement of the flow-mod state machine (`Model/FlowMod.lean`) to the OpenFlow 1.0 flow table (`Spec/OF10Table.lean`):
@@ -14,7 +14,7 @@ def absEntry (e : FEntry) : SFlow :=
     idle := e.data.idle, hard := e.data.hard, installed := e.data.created, lastUsed := e.data.touched,
     packets := e.data.packets, bytes := e.data.bytes }
 
-def abs (s : State) : STable := { flows := s.table.map absEntry, now := s.now, capacity := s.maxEntries }
+def abs (s : State) : STable := { flows := s.table.map absEntry, now := s.now, capacity := s.maxEntries, buffers := s.pool }
 
 def absStat (f : FlowStat) : SFlowStat :=
   { mtch := f.wire, durSec := f.durSec, durNsec := f.durNsec, priority := f.priority, idle := f.idle, hard := f.hard,
@@ -27,70 +27,164 @@ def absOut : Out → SOut
       { mtch := m.wire, cookie := m.cookie, priority := m.priority, reason := m.reason,
         durSec := m.durSec, durNsec := m.durNsec, idle := m.idle, packets := m.packets, bytes := m.bytes }
   | .error t c => .error t c
-  | .packetIn p => .packetIn p
+  | .packetIn p b => .packetIn p b
+  | .release id f a => .release id f a
   | .flowStats l => .flowStats (l.map absStat)
   | .aggStats p b n => .aggStats p b n
 
+/-! ## hypotheses on transmitted matches, by code variant -/
+
+/-- hypotheses on a transmitted match under which the code — in the variant `cfg` — treats it as the standard says.  The first
+    three are open C03 findings (D38, D36, D26); the last three are C04-2 and C04-1 and fall away with the proposed repairs. -/
+structure WireOk (cfg : Cfg) (r : OfMatch) : Prop where
+  prereq : PrereqExact r
+  tos : r.nwTos % 4 = 0
+  exactL4 : Spec.exact r = true → r.dlType = 0x0800 ∧ isL4Proto r.nwProto = true
+  /-- unrepaired C04-2 only: none of the undefined bits 22..31 of the wildcard word -/
+  width : cfg.maskUndefined = false → r.wildcards < 2 ^ 22
+  /-- unrepaired C04-1 only: no address bits below the prefix length -/
+  hostSrc : cfg.strictMutual = false → Spec.srcIgn r < 32 → r.nwSrc % 2 ^ Spec.srcIgn r = 0
+  hostDst : cfg.strictMutual = false → Spec.dstIgn r < 32 → r.nwDst % 2 ^ Spec.dstIgn r = 0
+
+/-- the record the code's comparisons are effectively made on -/
+def eff (cfg : Cfg) (r : OfMatch) : OfMatch := if cfg.maskUndefined then maskUndef r else r
+
+theorem rxMatch_eq (cfg : Cfg) (r : OfMatch) : rxMatch cfg r = ofWire (eff cfg r) := by
+  unfold rxMatch eff
+  cases cfg.maskUndefined
+  · rfl
+  · simp only [if_true]; exact ofWire_masked r
+
+theorem core_eff {cfg : Cfg} {r : OfMatch} (h : WireOk cfg r) : MatchCore (eff cfg r) := by
+  unfold eff
+  cases hm : cfg.maskUndefined
+  · exact ⟨h.prereq, h.tos, h.width hm, h.exactL4⟩
+  · exact matchCore_mask r h.prereq h.tos h.exactL4
+
+theorem ok_eff {cfg : Cfg} {r : OfMatch} (h : WireOk cfg r) (hs : cfg.strictMutual = false) : MatchOk (eff cfg r) := by
+  refine { toMatchCore := core_eff h, hostSrc := ?_, hostDst := ?_ }
+  · unfold eff; cases cfg.maskUndefined
+    · exact h.hostSrc hs
+    · simp only [if_true, srcIgn_mask]; exact h.hostSrc hs
+  · unfold eff; cases cfg.maskUndefined
+    · exact h.hostDst hs
+    · simp only [if_true, dstIgn_mask]; exact h.hostDst hs
+
+theorem subsumes_eff (cfg : Cfg) (a b : OfMatch) : subsumes (eff cfg a) (eff cfg b) = subsumes a b := by
+  unfold eff; cases cfg.maskUndefined <;> simp [subsumes_mask_left, subsumes_mask_right]
+theorem subsumes_eff_right (cfg : Cfg) (a b : OfMatch) : subsumes a (eff cfg b) = subsumes a b := by
+  unfold eff; cases cfg.maskUndefined <;> simp [subsumes_mask_right]
+theorem identical_eff (cfg : Cfg) (a b : OfMatch) : identical (eff cfg a) (eff cfg b) = identical a b := by
+  unfold eff; cases cfg.maskUndefined <;> simp [identical_mask_left, identical_mask_right]
+theorem overlaps_eff (cfg : Cfg) (a b : OfMatch) : overlaps (eff cfg a) (eff cfg b) = overlaps a b := by
+  unfold eff; cases cfg.maskUndefined <;> simp [overlaps_mask_left, overlaps_mask_right]
+theorem matchHdr_eff (cfg : Cfg) (r : OfMatch) (h : Headers) : matchHdr (eff cfg r) h = matchHdr r h := by
+  unfold eff; cases cfg.maskUndefined <;> simp [matchHdr_mask]
+theorem exact_eff (cfg : Cfg) (r : OfMatch) : Spec.exact (eff cfg r) = Spec.exact r := by
+  unfold eff; cases cfg.maskUndefined <;> simp [exact_mask]
+
+/-- non-strict MODIFY / DELETE: the code's test is the standard's subsumption -/
+theorem rx_subsumes (cfg : Cfg) (a b : OfMatch) (ha : WireOk cfg a) (hb : WireOk cfg b) :
+    matchesWith true (rxMatch cfg a) (rxMatch cfg b) = subsumes a b := by
+  rw [rxMatch_eq, rxMatch_eq, subsumes_code _ _ (core_eff ha) (core_eff hb), subsumes_eff]
+
+/-- strict commands and ADD's replacement: the code's test is the standard's "identical header fields" -/
+theorem rx_strict (cfg : Cfg) (e m : OfMatch) (he : WireOk cfg e) (hm : WireOk cfg m) :
+    strictMatch cfg (rxMatch cfg e) (rxMatch cfg m) = identical e m := by
+  unfold strictMatch
+  rw [rxMatch_eq, rxMatch_eq]
+  cases hs : cfg.strictMutual
+  · simp only [Bool.false_eq_true, if_false]
+    rw [strict_iff _ _ (ok_eff he hs) (ok_eff hm hs), identical_eff]
+  · simp only [if_true]
+    rw [mutual_iff _ _ (core_eff he) (core_eff hm), identical_eff]
+
+/-- CHECK_OVERLAP -/
+theorem rx_overlaps (cfg : Cfg) (a b : OfMatch) (ha : WireOk cfg a) (hb : WireOk cfg b) :
+    overlapsWith (rxMatch cfg a) (rxMatch cfg b) = overlaps a b := by
+  rw [rxMatch_eq, rxMatch_eq, overlaps_code _ _ (core_eff ha) (core_eff hb), overlaps_eff]
+
+/-- hypotheses on the match of a statistics request -/
+structure StatsOk (cfg : Cfg) (m : OfMatch) : Prop where
+  prereq : PrereqExact m
+  tos : m.nwTos % 4 = 0
+  /-- unrepaired C04-3 only: the fields the standard ignores are wildcarded already -/
+  canon : cfg.statsUnwire = false → ofWirePlain m = ofWire m
+
+theorem statsMatch_eq (cfg : Cfg) (m : OfMatch) (h : StatsOk cfg m) : statsMatch cfg m = ofWire m := by
+  unfold statsMatch
+  cases hs : cfg.statsUnwire
+  · exact h.canon hs
+  · exact ofWire_ofWirePlain m
+
+theorem stats_subsumes (cfg : Cfg) (m b : OfMatch) (hm : StatsOk cfg m) (hb : WireOk cfg b) :
+    matchesWith true (statsMatch cfg m) (rxMatch cfg b) = subsumes m b := by
+  rw [statsMatch_eq cfg m hm, rxMatch_eq,
+    code_subsumes m (eff cfg b) hm.prereq (core_eff hb).prereq hm.tos (core_eff hb).tos (core_eff hb).width, subsumes_eff_right]
+
 /-! ## invariant and hypotheses -/
 
-structure EntryOk (e : FEntry) : Prop where
-  /-- the stored match object is the un-wired transmitted match -/
-  wf : e.mtch = ofWire e.data.wire
-  mok : MatchOk e.data.wire
+structure EntryOk (cfg : Cfg) (e : FEntry) : Prop where
+  /-- the stored match object is what the flow-mod path made of the transmitted match -/
+  wf : e.mtch = rxMatch cfg e.data.wire
+  mok : WireOk cfg e.data.wire
   prio : e.priority ≤ 0xffff
   noEmerg : e.data.flags.testBit FF_EMERG = false
 
 structure Inv (s : State) : Prop where
   sorted : Sorted s.table
-  ok : ∀ e ∈ s.table, EntryOk e
+  ok : ∀ e ∈ s.table, EntryOk s.cfg e
   bounded : s.table.length ≤ s.maxEntries
 
 /-- a flow-mod as a controller sends it: regular match, 16-bit priority -/
-structure MsgOk (fm : FlowModMsg) : Prop where
-  mok : MatchOk fm.mtch
+structure MsgOk (cfg : Cfg) (fm : FlowModMsg) : Prop where
+  mok : WireOk cfg fm.mtch
   prio : fm.priority ≤ 0xffff
 
 /-- hypotheses on one event of a history -/
-def OpOk : Op → Prop
-  | .flowMod fm => MsgOk fm
+def OpOk (cfg : Cfg) : Op → Prop
+  | .flowMod fm => MsgOk cfg fm
   | .packet p _ _ => regular p = true ∧ pktTos p % 4 = 0
-  | .flowStats m _ => MatchOk m ∧ ofWirePlain m = ofWire m
-  | .aggStats m _ => MatchOk m ∧ ofWirePlain m = ofWire m
+  | .flowStats m _ => StatsOk cfg m
+  | .aggStats m _ => StatsOk cfg m
   | .advance _ => True
   | .sweep => True
 
-theorem init_inv (now mx : Nat) : Inv (init now mx) :=
+theorem init_inv (cfg : Cfg) (now mx mb : Nat) : Inv (init cfg now mx mb) :=
   ⟨List.Pairwise.nil, fun _ h => by simp [init] at h, Nat.zero_le _⟩
 
-theorem mkEntry_ok (now : Nat) (fm : FlowModMsg) (h : MsgOk fm) (he : fm.flags.testBit FF_EMERG = false) : EntryOk (mkEntry now fm) :=
+theorem mkEntry_ok (cfg : Cfg) (now : Nat) (fm : FlowModMsg) (h : MsgOk cfg fm) (he : fm.flags.testBit FF_EMERG = false) :
+    EntryOk cfg (mkEntry cfg now fm) :=
   ⟨rfl, h.mok, h.prio, he⟩
 
 /-! ## rank -/
 
-theorem eff_of_ok (e : FEntry) (h : EntryOk e) :
+theorem eff_of_ok {cfg : Cfg} (e : FEntry) (h : EntryOk cfg e) :
     e.effectivePriority = if Spec.exact e.data.wire = true then EXACT_PRIORITY else e.priority := by
   unfold Entry.effectivePriority
-  rw [h.wf]
-  have hiff := ofWire_exact_iff e.data.wire
+  rw [h.wf, rxMatch_eq]
+  have hiff := ofWire_exact_iff (eff cfg e.data.wire)
+  have hc := core_eff h.mok
+  rw [exact_eff] at hiff
   by_cases hx : Spec.exact e.data.wire = true
-  · have : (ofWire e.data.wire).isWildcarded = false := hiff.mpr ⟨hx, h.mok.exactL4 hx⟩
+  · have : (ofWire (eff cfg e.data.wire)).isWildcarded = false := hiff.mpr ⟨hx, hc.exactL4 (by rw [exact_eff]; exact hx)⟩
     simp [this, hx]
-  · have : (ofWire e.data.wire).isWildcarded = true := by
-      cases hq : (ofWire e.data.wire).isWildcarded
+  · have : (ofWire (eff cfg e.data.wire)).isWildcarded = true := by
+      cases hq : (ofWire (eff cfg e.data.wire)).isWildcarded
       · exact absurd (hiff.mp hq).1 hx
       · rfl
     simp [this, hx]
 
 theorem rank_abs (e : FEntry) : (absEntry e).rank = if Spec.exact e.data.wire = true then 0x10000 else e.priority := rfl
 
-theorem eff_gt_iff (e e' : FEntry) (h : EntryOk e) (h' : EntryOk e') :
+theorem eff_gt_iff {cfg : Cfg} (e e' : FEntry) (h : EntryOk cfg e) (h' : EntryOk cfg e') :
     e.effectivePriority > e'.effectivePriority ↔ (absEntry e).rank > (absEntry e').rank := by
   rw [eff_of_ok e h, eff_of_ok e' h', rank_abs, rank_abs]
   have := h.prio; have := h'.prio
   simp only [EXACT_PRIORITY]
   split <;> split <;> omega
 
-theorem eff_eq_iff (e e' : FEntry) (h : EntryOk e) (h' : EntryOk e') :
+theorem eff_eq_iff {cfg : Cfg} (e e' : FEntry) (h : EntryOk cfg e) (h' : EntryOk cfg e') :
     e.effectivePriority = e'.effectivePriority ↔ (absEntry e).rank = (absEntry e').rank := by
   rw [eff_of_ok e h, eff_of_ok e' h', rank_abs, rank_abs]
   have := h.prio; have := h'.prio
@@ -105,32 +199,51 @@ theorem hasOutput_abs (e : FEntry) (p : Nat) : hasOutput (absEntry e) p = e.data
   congr 1
 
 /-- MODIFY / MODIFY_STRICT / the replacement of ADD: no port filter -/
-theorem selected_abs (e : FEntry) (he : EntryOk e) (m : OfMatch) (hm : MatchOk m) (prio : Nat) (strict : Bool) :
-    isMatchedBy e (ofWire m) prio strict none = selected m prio strict (absEntry e) := by
+theorem selected_abs {cfg : Cfg} (e : FEntry) (he : EntryOk cfg e) (m : OfMatch) (hm : WireOk cfg m) (prio : Nat) (strict : Bool) :
+    isMatchedBy cfg e (rxMatch cfg m) prio strict none = selected m prio strict (absEntry e) := by
   unfold isMatchedBy selected sameFlow
   cases strict
   · simp only [Bool.false_eq_true, if_false, Bool.true_and]
-    rw [he.wf, subsumes_code m e.data.wire hm he.mok]
+    rw [he.wf, rx_subsumes cfg m e.data.wire hm he.mok]
     rfl
   · simp only [if_true, Bool.true_and]
-    rw [he.wf, strict_iff e.data.wire m he.mok hm]
+    rw [he.wf, rx_strict cfg e.data.wire m he.mok hm]
     rfl
 
-/-- DELETE / DELETE_STRICT and statistics requests: with the `out_port` filter -/
-theorem selected_port_abs (e : FEntry) (he : EntryOk e) (m : OfMatch) (hm : MatchOk m) (prio : Nat) (strict : Bool) (outPort : Nat) :
-    isMatchedBy e (ofWire m) prio strict (if outPort = OFPP_NONE then none else some outPort) =
-      (selected m prio strict (absEntry e) && portOk outPort (absEntry e)) := by
-  rw [← selected_abs e he m hm prio strict]
-  unfold isMatchedBy portOk
+/-- the `out_port` filter on top of a test already related to the standard -/
+theorem port_filter_abs (e : FEntry) (outPort : Nat) (x : Bool) :
+    ((match (if outPort = OFPP_NONE then none else some outPort : Option Nat) with
+      | none => true
+      | some p => e.data.actions.any (outputsTo p)) && x) = (x && portOk outPort (absEntry e)) := by
+  unfold portOk
   by_cases hp : outPort = OFPP_NONE
   · simp [hp]
   · have : (outPort == OFPP_NONE) = false := by simpa using hp
     simp only [hp, if_false, this, Bool.false_or, hasOutput_abs]
-    cases strict
-    · simp only [Bool.false_eq_true, if_false, Bool.true_and]
-      exact Bool.and_comm _ _
-    · simp only [if_true, Bool.true_and]
-      cases e.data.actions.any (outputsTo outPort) <;> simp
+    exact Bool.and_comm _ _
+
+/-- DELETE / DELETE_STRICT: with the `out_port` filter -/
+theorem selected_port_abs {cfg : Cfg} (e : FEntry) (he : EntryOk cfg e) (m : OfMatch) (hm : WireOk cfg m) (prio : Nat) (strict : Bool)
+    (outPort : Nat) :
+    isMatchedBy cfg e (rxMatch cfg m) prio strict (if outPort = OFPP_NONE then none else some outPort) =
+      (selected m prio strict (absEntry e) && portOk outPort (absEntry e)) := by
+  rw [← selected_abs e he m hm prio strict]
+  unfold isMatchedBy
+  cases strict
+  · simp only [Bool.false_eq_true, if_false, Bool.true_and]
+    exact port_filter_abs e outPort _
+  · simp only [if_true, Bool.true_and]
+    rw [Bool.and_assoc, Bool.and_assoc]
+    exact port_filter_abs e outPort _
+
+/-- statistics requests: subsumption by the request's match, with the `out_port` filter -/
+theorem stats_selected_abs {cfg : Cfg} (e : FEntry) (he : EntryOk cfg e) (m : OfMatch) (hm : StatsOk cfg m) (outPort : Nat) :
+    isMatchedBy cfg e (statsMatch cfg m) 0 false (if outPort = OFPP_NONE then none else some outPort) =
+      (subsumes m (absEntry e).mtch && portOk outPort (absEntry e)) := by
+  unfold isMatchedBy
+  simp only [Bool.false_eq_true, if_false]
+  rw [he.wf, stats_subsumes cfg m e.data.wire hm he.mok]
+  exact port_filter_abs e outPort _
 
 /-! ## list plumbing -/
 
@@ -185,7 +298,7 @@ theorem takeWhile_map_abs (t : Table EData) (p : FEntry → Bool) (q : SFlow →
     · simp
 
 /-- `add_entry` puts the entry where the specification's ordered insertion puts the flow -/
-theorem addEntry_abs (new : FEntry) (t : Table EData) (hs : Sorted t) (hok : ∀ e ∈ t, EntryOk e) (hn : EntryOk new) :
+theorem addEntry_abs {cfg : Cfg} (new : FEntry) (t : Table EData) (hs : Sorted t) (hok : ∀ e ∈ t, EntryOk cfg e) (hn : EntryOk cfg new) :
     (addEntry new t).map absEntry = insertFlow (absEntry new) (t.map absEntry) := by
   obtain ⟨k, hle, heq, hpos⟩ := addEntry_eq new t
   obtain ⟨k', hk', hk'le, hlo, hup⟩ := insertPos?_spec new.effectivePriority (t.map Entry.effectivePriority)
@@ -210,13 +323,13 @@ theorem addEntry_abs (new : FEntry) (t : Table EData) (hs : Sorted t) (hok : ∀
 
 /-! ## messages -/
 
-theorem wants_abs (e : FEntry) (he : EntryOk e) : wantsRemoved e = wantsNotify (absEntry e) := by
+theorem wants_abs {cfg : Cfg} (e : FEntry) (he : EntryOk cfg e) : wantsRemoved e = wantsNotify (absEntry e) := by
   simp [wantsRemoved, wantsNotify, absEntry, he.noEmerg]
 
 theorem removed_abs (now reason : Nat) (e : FEntry) :
     absOut (.flowRemoved (removedMsg now reason e)) = .flowRemoved (removedOf now reason (absEntry e)) := rfl
 
-theorem notify_abs (now reason : Nat) (es : List FEntry) (hok : ∀ e ∈ es, EntryOk e) :
+theorem notify_abs {cfg : Cfg} (now reason : Nat) (es : List FEntry) (hok : ∀ e ∈ es, EntryOk cfg e) :
     (notify now reason es).map absOut = notifications now reason (es.map absEntry) := by
   unfold notify notifications
   rw [← filter_map_abs es wantsRemoved wantsNotify (fun e he => wants_abs e (hok e he)), List.map_map, List.map_map]
@@ -238,7 +351,7 @@ theorem not_same_of_not_selected (m : OfMatch) (prio : Nat) (strict : Bool) (f :
   · rw [selected_strict] at h; exact h
 
 /-- ADD proper: removing the strictly matching entries is the specification's removal of the identical flow -/
-theorem addBase_abs_add (s : State) (fm : FlowModMsg) (hi : Inv s) (hm : MsgOk fm) (hc : fm.cmd = .add) :
+theorem addBase_abs_add (s : State) (fm : FlowModMsg) (hi : Inv s) (hm : MsgOk s.cfg fm) (hc : fm.cmd = .add) :
     (addBase s fm).map absEntry = withoutSame (abs s) fm := by
   unfold addBase withoutSame
   simp only [hc]
@@ -264,21 +377,21 @@ theorem addBase_abs_modify (s : State) (fm : FlowModMsg) (strict : Bool) (hc : f
   have := hnone f hf
   simp [not_same_of_not_selected fm.mtch fm.priority strict f (by simpa using this)]
 
-theorem overlap_abs (s : State) (fm : FlowModMsg) (hi : Inv s) (hm : MsgOk fm) (he : fm.flags.testBit FF_EMERG = false) :
-    overlapScan (mkEntry s.now fm).effectivePriority (ofWire fm.mtch) s.table =
+theorem overlap_abs (s : State) (fm : FlowModMsg) (hi : Inv s) (hm : MsgOk s.cfg fm) (he : fm.flags.testBit FF_EMERG = false) :
+    overlapScan (mkEntry s.cfg s.now fm).effectivePriority (rxMatch s.cfg fm.mtch) s.table =
       (abs s).flows.any (fun g => g.rank == (newFlow s.now fm).rank && overlaps g.mtch fm.mtch) := by
   rw [overlapScan_sorted _ _ _ hi.sorted]
   apply any_map_abs
   intro e hmem
   have hok := hi.ok e hmem
-  have hnew := mkEntry_ok s.now fm hm he
-  have hrank : (e.effectivePriority == (mkEntry s.now fm).effectivePriority) = ((absEntry e).rank == (newFlow s.now fm).rank) := by
-    have := eff_eq_iff e (mkEntry s.now fm) hok hnew
+  have hnew := mkEntry_ok s.cfg s.now fm hm he
+  have hrank : (e.effectivePriority == (mkEntry s.cfg s.now fm).effectivePriority) = ((absEntry e).rank == (newFlow s.now fm).rank) := by
+    have := eff_eq_iff e (mkEntry s.cfg s.now fm) hok hnew
     rw [Bool.eq_iff_iff]; simp only [beq_iff_eq]; exact this
-  rw [hrank, hok.wf, overlaps_code e.data.wire fm.mtch hok.mok hm.mok]
+  rw [hrank, hok.wf, rx_overlaps s.cfg e.data.wire fm.mtch hok.mok hm.mok]
   rfl
 
-theorem flowModAdd_refines (s : State) (fm : FlowModMsg) (hi : Inv s) (hm : MsgOk fm)
+theorem flowModAdd_refines (s : State) (fm : FlowModMsg) (hi : Inv s) (hm : MsgOk s.cfg fm)
     (hbase : (addBase s fm).map absEntry = withoutSame (abs s) fm) :
     abs (flowModAdd s fm).1 = (Spec.add (abs s) fm).1 ∧ (flowModAdd s fm).2.map absOut = (Spec.add (abs s) fm).2 := by
   unfold flowModAdd Spec.add
@@ -287,7 +400,8 @@ theorem flowModAdd_refines (s : State) (fm : FlowModMsg) (hi : Inv s) (hm : MsgO
     exact ⟨rfl, rfl⟩
   · have hE' : fm.flags.testBit FF_EMERG = false := by simpa using hE
     rw [if_neg hE, if_neg hE]
-    have hov : (fm.flags.testBit FF_CHECK_OVERLAP && overlapScan (mkEntry s.now fm).effectivePriority (ofWire fm.mtch) s.table) =
+    have hov : (fm.flags.testBit FF_CHECK_OVERLAP &&
+        overlapScan (mkEntry s.cfg s.now fm).effectivePriority (rxMatch s.cfg fm.mtch) s.table) =
         (fm.flags.testBit FF_CHECK_OVERLAP &&
           (abs s).flows.any (fun g => g.rank == (newFlow (abs s).now fm).rank && overlaps g.mtch fm.mtch)) := by
       cases hC : fm.flags.testBit FF_CHECK_OVERLAP
@@ -311,20 +425,21 @@ theorem flowModAdd_refines (s : State) (fm : FlowModMsg) (hi : Inv s) (hm : MsgO
         rw [if_pos hfull, if_pos hfull, heq]
         exact ⟨rfl, rfl⟩
       · have hsorted := addBase_sorted s fm hi.sorted
-        have hok : ∀ e ∈ addBase s fm, EntryOk e := fun e he => hi.ok e ((addBase_sublist s fm).subset he)
+        have hok : ∀ e ∈ addBase s fm, EntryOk s.cfg e := fun e he => hi.ok e ((addBase_sublist s fm).subset he)
         rw [if_neg hfull, if_neg hfull]
         refine ⟨?_, rfl⟩
         simp only [abs]
-        rw [addEntry_abs _ _ hsorted hok (mkEntry_ok s.now fm hm hE'), hbase]
+        rw [addEntry_abs _ _ hsorted hok (mkEntry_ok s.cfg s.now fm hm hE'), hbase]
         rfl
 
 /-! ## MODIFY -/
 
-theorem flowModModify_refines (s : State) (fm : FlowModMsg) (strict : Bool) (hi : Inv s) (hm : MsgOk fm) (hc : fm.cmd ≠ .add) :
+theorem flowModModify_refines (s : State) (fm : FlowModMsg) (strict : Bool) (hi : Inv s) (hm : MsgOk s.cfg fm) (hc : fm.cmd ≠ .add) :
     abs (flowModModify s fm strict).1 = (Spec.modify (abs s) fm strict).1 ∧
     (flowModModify s fm strict).2.map absOut = (Spec.modify (abs s) fm strict).2 := by
   unfold flowModModify Spec.modify
-  have hsel : ∀ e ∈ s.table, isMatchedBy e (ofWire fm.mtch) fm.priority strict none = selected fm.mtch fm.priority strict (absEntry e) :=
+  have hsel : ∀ e ∈ s.table, isMatchedBy s.cfg e (rxMatch s.cfg fm.mtch) fm.priority strict none =
+      selected fm.mtch fm.priority strict (absEntry e) :=
     fun e he => selected_abs e (hi.ok e he) fm.mtch hm.mok fm.priority strict
   have hany := any_map_abs s.table _ _ hsel
   simp only [hany]
@@ -343,11 +458,12 @@ theorem flowModModify_refines (s : State) (fm : FlowModMsg) (strict : Bool) (hi 
 
 /-! ## DELETE -/
 
-theorem flowModDelete_refines (s : State) (fm : FlowModMsg) (strict : Bool) (hi : Inv s) (hm : MsgOk fm) :
+theorem flowModDelete_refines (s : State) (fm : FlowModMsg) (strict : Bool) (hi : Inv s) (hm : MsgOk s.cfg fm) :
     abs (flowModDelete s fm strict).1 = (Spec.delete (abs s) fm strict).1 ∧
     (flowModDelete s fm strict).2.map absOut = (Spec.delete (abs s) fm strict).2 := by
   unfold flowModDelete Spec.delete
-  have hsel : ∀ e ∈ s.table, isMatchedBy e (ofWire fm.mtch) fm.priority strict (if fm.outPort = OFPP_NONE then none else some fm.outPort) =
+  have hsel : ∀ e ∈ s.table, isMatchedBy s.cfg e (rxMatch s.cfg fm.mtch) fm.priority strict
+      (if fm.outPort = OFPP_NONE then none else some fm.outPort) =
       (selected fm.mtch fm.priority strict (absEntry e) && portOk fm.outPort (absEntry e)) :=
     fun e he => selected_port_abs e (hi.ok e he) fm.mtch hm.mok fm.priority strict fm.outPort
   constructor
@@ -373,11 +489,11 @@ theorem account_abs (t : Table EData) (acc : FEntry → Bool) (hit : SFlow → B
     · rfl
     · simp [h2]
 
-theorem accepts_abs (e : FEntry) (he : EntryOk e) (p : PHdr) (port : Nat) (hr : regular p = true) (hpt : pktTos p % 4 = 0) :
+theorem accepts_abs {cfg : Cfg} (e : FEntry) (he : EntryOk cfg e) (p : PHdr) (port : Nat) (hr : regular p = true) (hpt : pktTos p % 4 = 0) :
     e.accepts (fromPacket p port) = matchHdr (absEntry e).mtch (headers p port) := by
   unfold Entry.accepts
-  rw [he.wf]
-  exact wire_accepts_packet e.data.wire p port he.mok.prereq he.mok.tos hr hpt
+  rw [he.wf, rxMatch_eq, wire_accepts_packet _ p port (core_eff he.mok).prereq (core_eff he.mok).tos hr hpt, matchHdr_eff]
+  rfl
 
 theorem packetStep_refines (s : State) (p : PHdr) (port len : Nat) (hi : Inv s) (hr : regular p = true) (hpt : pktTos p % 4 = 0) :
     abs (packetStep s p port len).1 = (Spec.receive (abs s) p port len).1 ∧
@@ -432,48 +548,90 @@ theorem sweep_refines (s : State) (hi : Inv s) :
 
 /-! ## statistics -/
 
-theorem statsEntries_abs (s : State) (m : OfMatch) (outPort : Nat) (hi : Inv s) (hm : MatchOk m) (hp : ofWirePlain m = ofWire m) :
+theorem statsEntries_abs (s : State) (m : OfMatch) (outPort : Nat) (hi : Inv s) (hm : StatsOk s.cfg m) :
     (statsEntries s m outPort).map absEntry = statFlows (abs s) m outPort := by
   unfold statsEntries statFlows portFilter
-  rw [hp]
   apply filter_map_abs
   intro e he
-  rw [selected_port_abs e (hi.ok e he) m hm 0 false outPort, selected_loose]
+  exact stats_selected_abs e (hi.ok e he) m hm outPort
 
 theorem flowStat_abs (now : Nat) (e : FEntry) : absStat (flowStat now e) = statOf now (absEntry e) := rfl
 
+/-! ## the buffer named by a flow-mod -/
+
+theorem bufferUse_refines (s : State) (id : Nat) (a : List Action) :
+    abs (bufferUse s id a).1 = (Spec.applyBuffer (abs s) id a).1 ∧
+    (bufferUse s id a).2.map absOut = (Spec.applyBuffer (abs s) id a).2 := by
+  unfold bufferUse Spec.applyBuffer Spec.stored
+  have hb : (abs s).buffers = s.pool := rfl
+  rw [hb]
+  by_cases h0 : id = 0
+  · simp [h0, abs, absOut]
+  · by_cases hlen : id - 1 ≥ s.pool.slots.length
+    · have hnone : s.pool.slots[id - 1]? = none := List.getElem?_eq_none (by omega)
+      have hcond : ¬ (id ≠ 0 ∧ id - 1 < s.pool.slots.length) := by omega
+      simp [h0, hlen, hnone, hcond, abs, absOut]
+    · have hlt : id - 1 < s.pool.slots.length := by omega
+      have hget : s.pool.slots[id - 1]? = some (s.pool.slots[id - 1]) := List.getElem?_eq_getElem hlt
+      have hcond : id ≠ 0 ∧ id - 1 < s.pool.slots.length := ⟨h0, hlt⟩
+      have hor : ¬ (id = 0 ∨ id - 1 ≥ s.pool.slots.length) := by omega
+      rw [if_neg hor, List.getD_eq_getElem?_getD, hget]
+      simp only [if_neg h0, Option.join, Option.getD_some]
+      cases hs : s.pool.slots[id - 1] with
+      | none => simp [hs, hcond, abs, absOut]
+      | some f => simp [hs, abs, absOut]
+
+theorem flowModHandler_refines (s : State) (fm : FlowModMsg) (hi : Inv s) (hm : MsgOk s.cfg fm) :
+    abs (flowModHandler s fm).1 = (Spec.command (abs s) fm).1 ∧
+    (flowModHandler s fm).2.map absOut = (Spec.command (abs s) fm).2 := by
+  cases hc : fm.cmd
+  · simp only [flowModHandler, Spec.command, hc]
+    exact flowModAdd_refines s fm hi hm (addBase_abs_add s fm hi hm hc)
+  · simp only [flowModHandler, Spec.command, hc]
+    exact flowModModify_refines s fm false hi hm (by rw [hc]; intro h; cases h)
+  · simp only [flowModHandler, Spec.command, hc]
+    exact flowModModify_refines s fm true hi hm (by rw [hc]; intro h; cases h)
+  · simp only [flowModHandler, Spec.command, hc]
+    exact flowModDelete_refines s fm false hi hm
+  · simp only [flowModHandler, Spec.command, hc]
+    exact flowModDelete_refines s fm true hi hm
+  · simp only [flowModHandler, Spec.command, hc]
+    exact ⟨rfl, rfl⟩
+
+theorem flowModStep_refines (s : State) (fm : FlowModMsg) (hi : Inv s) (hm : MsgOk s.cfg fm) :
+    abs (flowModStep s fm).1 = (Spec.flowMod (abs s) fm).1 ∧ (flowModStep s fm).2.map absOut = (Spec.flowMod (abs s) fm).2 := by
+  obtain ⟨h1, h2⟩ := flowModHandler_refines s fm hi hm
+  unfold flowModStep Spec.flowMod bufferTail
+  cases hb : fm.bufferId with
+  | none =>
+    cases hc : fm.cmd <;> simp only [List.append_nil] <;> exact ⟨h1, h2⟩
+  | some id =>
+    obtain ⟨b1, b2⟩ := bufferUse_refines (flowModHandler s fm).1 id fm.actions
+    cases hc : fm.cmd <;> simp only [List.append_nil, List.map_append] <;>
+      first
+        | exact ⟨h1, h2⟩
+        | (rw [h1] at b1 b2; exact ⟨b1, by rw [h2, b2]⟩)
+
 /-! ## one step, the invariant, histories -/
 
-theorem step_refines (s : State) (op : Op) (hi : Inv s) (ho : OpOk op) :
+theorem step_refines (s : State) (op : Op) (hi : Inv s) (ho : OpOk s.cfg op) :
     abs (step s op).1 = (Spec.step (abs s) op).1 ∧ (step s op).2.map absOut = (Spec.step (abs s) op).2 := by
   cases op with
-  | flowMod fm =>
-    have hm : MsgOk fm := ho
-    cases hc : fm.cmd
-    · simp only [step, flowModStep, Spec.step, hc]
-      exact flowModAdd_refines s fm hi hm (addBase_abs_add s fm hi hm hc)
-    · simp only [step, flowModStep, Spec.step, hc]
-      exact flowModModify_refines s fm false hi hm (by rw [hc]; decide)
-    · simp only [step, flowModStep, Spec.step, hc]
-      exact flowModModify_refines s fm true hi hm (by rw [hc]; decide)
-    · simp only [step, flowModStep, Spec.step, hc]
-      exact flowModDelete_refines s fm false hi hm
-    · simp only [step, flowModStep, Spec.step, hc]
-      exact flowModDelete_refines s fm true hi hm
+  | flowMod fm => exact flowModStep_refines s fm hi ho
   | packet p port len =>
     have h : regular p = true ∧ pktTos p % 4 = 0 := ho
     exact packetStep_refines s p port len hi h.1 h.2
   | advance dt => exact ⟨rfl, rfl⟩
   | sweep => exact sweep_refines s hi
   | flowStats m outPort =>
-    have h : MatchOk m ∧ ofWirePlain m = ofWire m := ho
+    have h : StatsOk s.cfg m := ho
     refine ⟨rfl, ?_⟩
-    simp only [step, Spec.step, List.map_cons, List.map_nil, absOut, ← statsEntries_abs s m outPort hi h.1 h.2, List.map_map]
+    simp only [step, Spec.step, List.map_cons, List.map_nil, absOut, ← statsEntries_abs s m outPort hi h, List.map_map]
     congr 1
   | aggStats m outPort =>
-    have h : MatchOk m ∧ ofWirePlain m = ofWire m := ho
+    have h : StatsOk s.cfg m := ho
     refine ⟨rfl, ?_⟩
-    simp only [step, Spec.step, List.map_cons, List.map_nil, absOut, ← statsEntries_abs s m outPort hi h.1 h.2, List.map_map,
+    simp only [step, Spec.step, List.map_cons, List.map_nil, absOut, ← statsEntries_abs s m outPort hi h, List.map_map,
       List.length_map]
     congr 1
 
